@@ -308,6 +308,19 @@ func ruleC04BlockBoundary(c *Ctx, r *Rep) {
 			}
 		}
 	}
+	// `next` must be the adjacent instruction: the loop body ends with an unconditional `next = code`
+	adjacent := false
+	ast.Inspect(fd.Body, func(n ast.Node) bool {
+		fs, ok := n.(*ast.ForStmt)
+		if !ok || len(fs.Body.List) == 0 {
+			return true
+		}
+		if as, ok := fs.Body.List[len(fs.Body.List)-1].(*ast.AssignStmt); ok && len(as.Lhs) == 1 && c.Src(as.Lhs[0]) == "next" && c.Src(as.Rhs[0]) == "code" {
+			adjacent = true
+		}
+		return true
+	})
+	r.Check(adjacent, "optimizeCodeOps:adjacent", twoInstr.Pos(), "the second instruction of a two-instruction rule is the adjacent one (`next = code` ends every loop turn unconditionally): %v — matching through instructions already turned into nop fuses a pair separated by a join point (`. as $x | {a: (($x, .) | 3)}`)", adjacent)
 	var missing []string
 	for op := range branch {
 		if !covered[op] {
@@ -468,6 +481,39 @@ func ruleC04TailRec(c *Ctx, r *Rep) {
 	r.Check(okSkip && len(skipped) >= 1, "follow:skips", follow.Pos(), "between the call and opret the look-ahead skips only %v (ops whose sole effect is pc := v)", skipped)
 	r.Check(defaultAborts, "follow:default", follow.Pos(), "any other instruction aborts the rewrite (default: continue L): %v — otherwise a non-tail call would be treated as a tail call", defaultAborts)
 	r.Check(retRewrites, "follow:ret", follow.Pos(), "at opret the call becomes opjump when the scope owns no variable, else opcallrec: %v", retRewrites)
+	// (e) writer side: the arity operand of every emitted opscope is the definition's parameter count
+	infoG := c.Gojq.TypesInfo
+	for _, e := range getEmits(c) {
+		if e.Op != "opscope" || e.V == nil {
+			continue
+		}
+		cl, ok := unparen(e.V).(*ast.CompositeLit)
+		if !ok || len(cl.Elts) != 3 {
+			r.Undecided("arity-operand@"+e.FnKey, e.Lit.Pos(), "opscope operand is not a [3]int literal")
+			continue
+		}
+		ar := c.Src(cl.Elts[2])
+		okc := false
+		want := ""
+		switch e.FnKey {
+		case "compiler.compileFuncDef":
+			want = "len(e.Args)"
+			okc = ar == want
+		case "Compile":
+			want = "0"
+			okc = ar == "0"
+		default:
+			// literal lists: the arity given to appendBuiltin in the same function
+			ast.Inspect(e.Fn.Body, func(n ast.Node) bool {
+				if call, ok := n.(*ast.CallExpr); ok && calleeName(infoG, call) == "gojq.compiler.appendBuiltin" && len(call.Args) == 2 {
+					want = c.Src(call.Args[1])
+					okc = want == ar
+				}
+				return true
+			})
+		}
+		r.Check(okc, "arity-operand@"+e.FnKey, e.Lit.Pos(), "opscope emitted in %s carries arity %s (the definition's parameter count is %s): the tail-call pass trusts this operand — a count of closure parameters only would let functions with $value parameters reuse a frame whose parameters are still read (`def gcd($a;$b): …` returns a wrong result)", e.FnKey, ar, want)
+	}
 	// (d) jump target is scope pc + 1 (skips the opscope itself)
 	d := strings.Contains(src, "code.v = pcs[len(pcs)-1] + 1")
 	r.Check(d, "jump-target", fd.Pos(), "the opjump form re-enters after the opscope instruction (pcs[len(pcs)-1] + 1): %v", d)
